@@ -40,10 +40,12 @@ def _run_task(args):
     st = core.Stats()
     st.errors.append({"why": "task crashed: %r" % (e,), "trace": traceback.format_exc()[-2000:],
                       "harness": hname, "cfg": core._jsonable(cfg)})
+  dumped = getattr(st, "dumped", [])
   out = {k: getattr(st, k) for k in ("max_q", "q", "solver_s", "paths", "decisions", "obligations",
                                      "discharged", "witnesses", "witness_skipped", "samples",
                                      "violations", "inconclusive", "errors", "excluded_paths",
                                      "maybe_infeasible")}
+  out["dumped"] = dumped[:4]
   out["harness"] = hname
   out["cfg"] = core._jsonable(cfg)
   out["wall_s"] = time.time() - t0
@@ -179,6 +181,7 @@ def main(argv=None):
   for t in mod.tasks(a.tier, seed):
     hname, cfg = t[0], t[1]
     caps = {"task_s": 300 if a.tier == "quick" else 2400}
+    if a.tier == "thorough" or os.environ.get("VERIF_XSOLVER"): caps["dump_queries"] = 4
     caps.update(getattr(mod, "CAPS", {}).get(a.tier, {}))
     if len(t) > 2 and t[2]: caps.update(t[2])
     if a.only and a.only not in hname and a.only not in json.dumps(core._jsonable(cfg)):
@@ -195,6 +198,50 @@ def main(argv=None):
   if hasattr(mod, "extra") and not a.only:
     extra = mod.extra(a.tier, REPO)
   return report(a, mod, results, time.time() - t0, seed, extra)
+
+
+def cross_solver(results, limit=80, tmo=30):
+  """Differential run of a sample of the decided queries on two other solver builds (z3 4.8.12 binary, cvc5 binary)."""
+  import subprocess, tempfile, shutil
+  qs = []
+  for r in results:
+    for item in r.get("dumped", []): qs.append(item)
+  qs = qs[:limit]
+  out = {"queries_compared": 0, "disagreements": 0, "other_solver_timeouts_or_unsupported": 0, "solvers": []}
+  if not qs: return out
+  tools = [("z3-4.8.12", ["/usr/bin/z3", "-T:%d" % tmo]), ("cvc5-1.0", ["cvc5", "--tlimit=%d" % (tmo * 1000)])]
+  tools = [(n, c) for n, c in tools if shutil.which(c[0])]
+  out["solvers"] = [n for n, _ in tools]
+  d = tempfile.mkdtemp(prefix="xsolver_")
+  try:
+    procs = []
+    for i, (res, smt) in enumerate(qs):
+      path = os.path.join(d, "q%d.smt2" % i)
+      with open(path, "w") as f: f.write("(set-logic ALL)\n" + smt + "\n")
+      for n, c in tools:
+        procs.append((res, n, subprocess.Popen(c + [path], stdout=subprocess.PIPE, stderr=subprocess.STDOUT, text=True)))
+      if len(procs) >= 16:
+        _collect(procs, out, tmo); procs = []
+    _collect(procs, out, tmo)
+  finally:
+    shutil.rmtree(d, ignore_errors=True)
+  return out
+
+
+def _collect(procs, out, tmo):
+  for res, n, p in procs:
+    try:
+      o, _ = p.communicate(timeout=tmo + 10)
+    except Exception:
+      p.kill(); o = "timeout"
+    first = (o.strip().splitlines() or [""])[0].strip()
+    if first in ("sat", "unsat"):
+      out["queries_compared"] += 1
+      if first != res:
+        out["disagreements"] += 1
+        out.setdefault("disagreement_samples", []).append({"solver": n, "symrun": res, "other": first})
+    else:
+      out["other_solver_timeouts_or_unsupported"] += 1
 
 
 def report(a, mod, results, wall, seed, extra=None):
@@ -290,6 +337,10 @@ def report(a, mod, results, wall, seed, extra=None):
                      "the query pc AND NOT claim sent to a fresh z3 solver (unsat = holds for all values on the path).",
   }
   if extra: cov.update(extra.get("coverage", {}))
+  xs = None
+  if a.tier == "thorough" or os.environ.get("VERIF_XSOLVER"):
+    xs = cross_solver(results)
+    cov["cross_solver"] = xs
   ev = {"property_id": pid, "tier": tier, "seed": seed, "level": "model_checking",
         "coverage": cov, "assumptions": meta.get("assumptions", []),
         "wall_s": round(wall, 2), "violations": len(new_v)}
@@ -318,6 +369,10 @@ def report(a, mod, results, wall, seed, extra=None):
     rc = rc or 2
   if opt_inconcl:
     print("inconclusive optional sub-obligations (reported, not claimed): %d" % len(opt_inconcl))
+  if xs and xs["disagreements"]:
+    print("ENGINE-ERROR: %d solver disagreement(s) between z3 %s and %s" % (xs["disagreements"], z3.get_version_string(), xs["solvers"]))
+    rc = rc or 2
+  if xs: print("cross-solver: %d query verdicts compared with %s, %d disagreements" % (xs["queries_compared"], xs["solvers"], xs["disagreements"]))
   if agg["paths"] == 0 or agg["obligations"] == 0:
     print("ENGINE-ERROR: nothing explored"); rc = rc or 2
   return rc
